@@ -53,10 +53,25 @@ def monitored_run_tagging_tasks(args):
     return res
 
 
+EJECT_PATCHED = [0]
+
+
 @contextlib.contextmanager
-def instrumented(event_file=None, delay_seed=None):
+def instrumented(event_file=None, delay_seed=None, eject_every=None):
     from singlecellmultiomics.universalBamTagger import bamtagmultiome as btm
     from singlecellmultiomics.universalBamTagger import tagging
+    from singlecellmultiomics.molecule import iterator as _it
+    # The command line cannot change how often the molecule buffer is checked for ejection (every 10,000 fragments): with the small
+    # libraries of the harness the ejection code would never run on this path. The interval is a tuning constant (C07: the result does not
+    # depend on it), so the harness may shrink it; forked workers inherit the wrapper.
+    old_init = _it.MoleculeIterator.__init__
+    if eject_every is not None:
+        def patched_init(self_, *a, **k):
+            old_init(self_, *a, **k)
+            if getattr(self_, 'check_eject_every', None) == 10_000:
+                self_.check_eject_every = eject_every
+                EJECT_PATCHED[0] += 1
+        _it.MoleculeIterator.__init__ = patched_init
     old_sleep = btm.sleep
     old_run = btm.run_tagging_tasks
     tagging._scmo_orig_run_tagging_tasks = tagging.run_tagging_tasks if not hasattr(tagging, '_scmo_orig_run_tagging_tasks') else tagging._scmo_orig_run_tagging_tasks
@@ -71,6 +86,7 @@ def instrumented(event_file=None, delay_seed=None):
     try:
         yield btm
     finally:
+        _it.MoleculeIterator.__init__ = old_init
         btm.sleep = old_sleep
         btm.run_tagging_tasks = old_run
         for k, v in old_env.items():
@@ -80,11 +96,11 @@ def instrumented(event_file=None, delay_seed=None):
                 os.environ[k] = v
 
 
-def run_cli(cmd, event_file=None, delay_seed=None, capture=True):
+def run_cli(cmd, event_file=None, delay_seed=None, capture=True, eject_every=None):
     """run_multiome_tagging_cmd in this process. Returns (exception or None, captured text)"""
     out = io.StringIO()
     exc = None
-    with instrumented(event_file, delay_seed) as btm:
+    with instrumented(event_file, delay_seed, eject_every) as btm:
         try:
             if capture:
                 with contextlib.redirect_stdout(out), contextlib.redirect_stderr(out):
